@@ -54,6 +54,11 @@ def tag(c):
     return "%s:d=%d:stall=%d" % (c["kind"], c["d"], int(c["stall"]))
 
 
+def ktag(kind, d, stall):
+    """configuration class of a violation key: delay 0 (bypass / pass-through) is a code path of its own"""
+    return "%s:%s:stall=%d" % (kind, "d=0" if d == 0 else "d>=1", int(bool(stall)))
+
+
 # ==============================================================================================
 # 1. model checking (background thread)
 # ==============================================================================================
@@ -286,7 +291,7 @@ def walk_record(res, results):
         if miss:
             raise MachineryError("DelayPipe graph %s has no %s edge (vacuous walk)" % (tag(c), miss))
         if "exc" in w:
-            res.violation("pipe-walk:%s:exception:%s" % (tag(c), w["exc"].split(":")[0]),
+            res.violation("pipe-walk:%s:exception:%s" % (ktag(c["kind"], c["d"], c["stall"]), w["exc"].split(":")[0]),
                           "driving the real delay pipe along the model's state graph raised %s" % w["exc"],
                           {"config": c, "tb": w["tb"]})
             continue
@@ -298,7 +303,7 @@ def walk_record(res, results):
             if wk["covered"] != w["nedges"] and not wk["mism"]:
                 raise MachineryError("graph walk %s covered %d of %d edges" % (tag(c), wk["covered"], w["nedges"]))
             for m in wk["mism"]:
-                res.violation("pipe-walk:%s:%s:%s" % (tag(c), m["action"], m["field"]),
+                res.violation("pipe-walk:%s:%s" % (ktag(c["kind"], c["d"], c["stall"]), m["field"]),
                               "%s(delay=%d)%s, block order %d: from pipeline %s the model's %s%s leads to %s / pipeline %s, "
                               "the implementation shows %s (first difference: %s)"
                               % ("DelayPipeDeqCL" if c["kind"] == "deq" else "DelayPipeSendCL", c["d"],
@@ -436,84 +441,8 @@ def _ttag(t):
     return "%s:d=%d:stall=%d" % (t["kind"], t["d"], int(t["stall"]))
 
 
-def histories_record(res, raw, quick):
-    """Validation of the recorded histories + canaries.  raw: results of history_job for
-    history_jobs(quick) + canary_jobs()."""
-    R = rng("c18/pipe-canary2")
-    real, soft = [], []
-    for t in raw:
-        j = t["job"]
-        if "exc" in t:
-            if j.get("soft"):
-                raise MachineryError("software pipe raised %s" % t["exc"])
-            res.violation("pipe:%s:d=%d:stall=%d:exception:%s" % (j["kind"], j["delay"], int(bool(j["stall"])),
-                                                                    t["exc"].split(":")[0]),
-                          "driving the delay pipe raised %s" % t["exc"], {"job": j, "tb": t["tb"]})
-            continue
-        if j.get("stall") and any(e["st"] == -1 for e in t["ev"]):
-            raise MachineryError("StallCL drew %s random numbers in one cycle (the harness calls rdy() once)" % "!= 1")
-        (soft if j.get("soft") else real).append(t)
-    nev = sum(len(t["ev"]) for t in real)
-    res.add_evals(nev)
-    lin = validate(res, [_lin(t) for t in real])
-    res.add_traces(len(real))
-    good = []
-    cov = collections.Counter()
-    for t, (err, pos) in zip(real, lin):
-        j = t["job"]
-        cov[(t["kind"], t["d"], bool(t["stall"]))] += 1
-        cov["msgs"] += t["nacc"]
-        res.distinct(("pipe-hist", t["kind"], t["d"], json.dumps(j["stall"]), j["order"], j["seed"]))
-        if err == "ok":
-            good.append(t)
-            continue
-        if err.startswith("bad-trace"):
-            raise MachineryError("the harness wrote a malformed pipe trace: %s at %d (%s)" % (err, pos, _ttag(t)))
-        e = t["ev"][pos - 1] if 1 <= pos <= len(t["ev"]) else None
-        res.violation("pipe-trace:%s:%s" % (_ttag(t), err),
-                      "%s(delay=%d)%s: %s at cycle %d %s%s"
-                      % ("DelayPipeDeqCL" if t["kind"] == "deq" else "DelayPipeSendCL", t["d"],
-                         " behind StallCL(%s)" % j["stall"] if j["stall"] else "", err, pos, e,
-                         " (clause of the model of the code: exact ready timing)" if err.startswith(CODE_CLAUSES) else ""),
-                      {"clause": err, "cycle": pos, "job": j, "schedule": t.get("sched"), "events": t["ev"][max(0, pos - 12):pos + 3]})
-    # StallCL: the same histories with the stall decisions removed -- TLC must find them
-    st_good = [t for t in good if t["stall"]]
-    inf = validate(res, [_inf(t) for t in st_good], chunk=max(2, len(st_good) // 16 + 1))
-    res.add_traces(len(st_good))
-    for t, (err, _pos) in zip(st_good, inf):
-        if err != "ok":
-            raise MachineryError("inferred-stall mode rejects a history accepted with the logged draws: %s %s"
-                                 % (_ttag(t), t["job"]))
-    stalled_cycles = sum(1 for t in st_good for e in t["ev"] if e["st"] == 1 and e["eo"])
-    if st_good and stalled_cycles == 0:
-        raise MachineryError("no offer was ever stalled in the StallCL histories (vacuous)")
-    need = [(k, d, False) for k in KINDS for d in (0, 1, 2, 3, 8)] + [(k, d, True) for k in KINDS for d in (0, 1, 2, 3)]
-    miss = [x for x in need if cov[x] == 0]
-    if miss and not res.violations:
-        raise MachineryError("no accepted history for %s" % miss)
-    res.note("pipe_histories", {"traces": len(real), "cycles": nev, "messages": cov["msgs"],
-                                "with_StallCL": len([t for t in real if t["stall"]]),
-                                "offers_stalled": stalled_cycles,
-                                "validated_again_with_inferred_stall_decisions": len(st_good)})
-    if good:
-        t = good[len(good) // 3]
-        res.sample({"kind": "delay pipe history (first 10 cycles)", "config": _ttag(t), "job": t["job"], "events": t["ev"][:10]})
-
-    # ---- canaries -------------------------------------------------------------------------
-    # (a) software pipes: fault-free accepted, faulty rejected
-    sv = validate(res, [_lin(t) for t in soft])
-    kinds = collections.Counter()
-    clauses = collections.Counter()
-    for t, (err, pos) in zip(soft, sv):
-        f = t["job"]["fault"]
-        if f is None and err != "ok":
-            raise MachineryError("control: the fault-free software pipe is rejected: %s at %d (%s)" % (err, pos, _ttag(t)))
-        if f is not None:
-            if err == "ok":
-                raise MachineryError("canary: the software pipe with fault '%s' is accepted (%s)" % (f, _ttag(t)))
-            kinds["soft-" + f] += 1
-            clauses[err] += 1
-    # (b) corrupted copies of accepted real histories (linear mode)
+def _corrupt(R, good, kinds):
+    """corrupted copies of accepted real histories (linear mode) -> (traces, what was done)"""
     can, exp = [], []
     pool = list(good)
     R.shuffle(pool)
@@ -548,7 +477,97 @@ def histories_record(res, raw, quick):
         can.append(c)
         exp.append(("changed", "swapped", "vanished", "enq-rdy", "slot", "duplicate")[k])
         kinds[exp[-1]] += 1
-    cv = validate(res, [_lin(t) for t in can])
+    return can, exp
+
+
+def histories_record(res, raw, quick):
+    """Validation of the recorded histories + canaries.  raw: results of history_job for
+    history_jobs(quick) + canary_jobs()."""
+    R = rng("c18/pipe-canary2")
+    real, soft = [], []
+    for t in raw:
+        j = t["job"]
+        if "exc" in t:
+            if j.get("soft"):
+                raise MachineryError("software pipe raised %s" % t["exc"])
+            res.violation("pipe:%s:exception:%s" % (ktag(j["kind"], j["delay"], j["stall"]), t["exc"].split(":")[0]),
+                          "driving the delay pipe raised %s" % t["exc"], {"job": j, "tb": t["tb"]})
+            continue
+        (soft if j.get("soft") else real).append(t)
+    nev = sum(len(t["ev"]) for t in real)
+    res.add_evals(nev)
+    lin = validate(res, [_lin(t) for t in real])
+    res.add_traces(len(real))
+    good = []
+    cov = collections.Counter()
+    for t, (err, pos) in zip(real, lin):
+        j = t["job"]
+        cov[(t["kind"], t["d"], bool(t["stall"]))] += 1
+        cov["msgs"] += t["nacc"]
+        res.distinct(("pipe-hist", t["kind"], t["d"], json.dumps(j["stall"]), j["order"], j["seed"]))
+        if err == "ok":
+            good.append(t)
+            continue
+        if err == "bad-trace-stall-draws":
+            # the stall did not draw exactly one random number for the one rdy() evaluation of the cycle:
+            # its decision cannot be read off the stream; what the statement needs is decided without it
+            iv = validate(res, [_inf(t)], chunk=1)[0]
+            res.violation("pipe-trace:%s:%s" % (ktag(t["kind"], t["d"], t["stall"]), "stall-draws-per-rdy-call-differ-from-model" if iv[0] == "ok" else iv[0]),
+                          "StallCL(%s) in front of %s(delay=%d): cycle %d drew a number of random values other than one per "
+                          "rdy() evaluation (clause of the model of the code); with the stall decisions left open the "
+                          "history is %s" % (j["stall"], "DelayPipeDeqCL" if t["kind"] == "deq" else "DelayPipeSendCL",
+                                            t["d"], pos, "explained" if iv[0] == "ok" else "NOT explained: " + iv[0]),
+                          {"cycle": pos, "job": j, "events": t["ev"][max(0, pos - 12):pos + 3]})
+            continue
+        if err.startswith("bad-trace"):
+            raise MachineryError("the harness wrote a malformed pipe trace: %s at %d (%s)" % (err, pos, _ttag(t)))
+        e = t["ev"][pos - 1] if 1 <= pos <= len(t["ev"]) else None
+        res.violation("pipe-trace:%s:%s" % (ktag(t["kind"], t["d"], t["stall"]), err),
+                      "%s(delay=%d)%s: %s at cycle %d %s%s"
+                      % ("DelayPipeDeqCL" if t["kind"] == "deq" else "DelayPipeSendCL", t["d"],
+                         " behind StallCL(%s)" % j["stall"] if j["stall"] else "", err, pos, e,
+                         " (clause of the model of the code: exact ready timing)" if err.startswith(CODE_CLAUSES) else ""),
+                      {"clause": err, "cycle": pos, "job": j, "schedule": t.get("sched"), "events": t["ev"][max(0, pos - 12):pos + 3]})
+    # StallCL: the same histories with the stall decisions removed -- TLC must find them
+    st_good = [t for t in good if t["stall"]]
+    inf = validate(res, [_inf(t) for t in st_good], chunk=max(6, len(st_good) // 16 + 1))
+    res.add_traces(len(st_good))
+    for t, (err, _pos) in zip(st_good, inf):
+        if err != "ok":
+            raise MachineryError("inferred-stall mode rejects a history accepted with the logged draws: %s %s"
+                                 % (_ttag(t), t["job"]))
+    stalled_cycles = sum(1 for t in st_good for e in t["ev"] if e["st"] == 1 and e["eo"])
+    if st_good and stalled_cycles == 0:
+        raise MachineryError("no offer was ever stalled in the StallCL histories (vacuous)")
+    need = [(k, d, False) for k in KINDS for d in (0, 1, 2, 3, 8)] + [(k, d, True) for k in KINDS for d in (0, 1, 2, 3)]
+    miss = [x for x in need if cov[x] == 0]
+    if miss and not res.violations:
+        raise MachineryError("no accepted history for %s" % miss)
+    res.note("pipe_histories", {"traces": len(real), "cycles": nev, "messages": cov["msgs"],
+                                "with_StallCL": len([t for t in real if t["stall"]]),
+                                "offers_stalled": stalled_cycles,
+                                "validated_again_with_inferred_stall_decisions": len(st_good)})
+    if good:
+        t = good[len(good) // 3]
+        res.sample({"kind": "delay pipe history (first 10 cycles)", "config": _ttag(t), "job": t["job"], "events": t["ev"][:10]})
+
+    # ---- canaries -------------------------------------------------------------------------
+    # (a) software pipes: fault-free accepted, faulty rejected
+    kinds = collections.Counter()
+    clauses = collections.Counter()
+    can, exp = _corrupt(R, good, kinds)
+    both = validate(res, [_lin(t) for t in soft + can])
+    sv, cv = both[:len(soft)], both[len(soft):]
+    for t, (err, pos) in zip(soft, sv):
+        f = t["job"]["fault"]
+        if f is None and err != "ok":
+            raise MachineryError("control: the fault-free software pipe is rejected: %s at %d (%s)" % (err, pos, _ttag(t)))
+        if f is not None:
+            if err == "ok":
+                raise MachineryError("canary: the software pipe with fault '%s' is accepted (%s)" % (f, _ttag(t)))
+            kinds["soft-" + f] += 1
+            clauses[err] += 1
+    # (b) corrupted copies of accepted real histories (linear mode), built by _corrupt above
     acc = [exp[i] for i, v in enumerate(cv) if v[0] == "ok"]
     if acc:
         raise MachineryError("corrupted pipe histories accepted by DelayPipeTrace (linear): %s" % acc[:5])
@@ -592,7 +611,7 @@ def histories_record(res, raw, quick):
         ican.append(c)
         iexp.append(("swapped", "vanished", "changed", "early")[k])
         kinds["inferred-" + iexp[-1]] += 1
-    iv = validate(res, [_inf(t) for t in ican], chunk=4)
+    iv = validate(res, [_inf(t) for t in ican], chunk=8)
     acc = [iexp[i] for i, v in enumerate(iv) if v[0] == "ok"]
     if acc:
         raise MachineryError("corrupted StallCL histories accepted by DelayPipeTrace (inferred stalls): %s" % acc[:5])
